@@ -24,7 +24,11 @@ fn has_separator_number(src: &str) -> bool {
     // look at the text with the tags removed as well
     static TAGS: OnceLock<Regex> = OnceLock::new();
     let tags = TAGS.get_or_init(|| Regex::new("<[^>]*>").unwrap());
-    re.is_match(src) || re.is_match(&tags.replace_all(src, ""))
+    // ... and an <mspace/> between digits is a blank (a block separator) for the number merging
+    static MSPACE: OnceLock<Regex> = OnceLock::new();
+    let mspace = MSPACE.get_or_init(|| Regex::new("<mspace[^<>]*(/>|>\\s*</mspace>)").unwrap());
+    let spaced = mspace.replace_all(src, " ");
+    re.is_match(src) || re.is_match(&tags.replace_all(&spaced, ""))
 }
 
 const SEP_PREFS: &[&str] = &["Language", "LanguageAuto", "DecimalSeparator", "DecimalSeparators", "BlockSeparators"];
